@@ -51,7 +51,11 @@ def _uf1(name, x, axioms=None):
         dlt = z3.simplify(a - b, som=True)
         if z3.is_rational_value(dlt):
             return dlt.as_fraction() == 0
-        if getattr(c, "numeric_filter", False):
+        nf = getattr(c, "numeric_filter", False)
+        if nf == "float":
+            if _float_different(c, a, b):
+                return False
+        elif nf:
             if not (_has_div(a) or _has_div(b)):
                 return False
             if _numerically_different(c, dlt):
@@ -136,6 +140,96 @@ def _numerically_different(c, dlt):
     S.PIN.append(dlt)
     v = _numeric(dlt, memo)
     return v is not None and v != 0
+
+
+def _float_eval(e, seed, memo):
+    """floating-point value of a real term under the TRUE meaning of sqrt / exp / log / erf / erfcx / pi and a
+    deterministic pseudo-random value for every other symbol; None when something is not understood"""
+    import zlib
+    k = (e.get_id(), seed)
+    if k in memo:
+        return memo[k]
+
+    def rnd(tag, lo=0.3, hi=2.5):
+        h = zlib.crc32((tag + "#" + str(seed)).encode()) / 2 ** 32
+        return lo + (hi - lo) * h
+
+    def ev(t):
+        kk = (t.get_id(), seed)
+        if kk in memo:
+            return memo[kk]
+        r = ev1(t)
+        memo[kk] = r
+        return r
+
+    def ev1(t):
+        if z3.is_rational_value(t):
+            f = t.as_fraction()
+            return f.numerator / f.denominator
+        if z3.is_int_value(t):
+            return float(t.as_long())
+        if not z3.is_app(t):
+            return None
+        kd = t.decl().kind()
+        ch = [ev(c_) for c_ in t.children()] if kd != z3.Z3_OP_ITE else None
+        if ch is not None and any(v is None for v in ch):
+            return None
+        try:
+            if kd == z3.Z3_OP_ADD:
+                return sum(ch)
+            if kd == z3.Z3_OP_SUB:
+                return ch[0] - sum(ch[1:])
+            if kd == z3.Z3_OP_UMINUS:
+                return -ch[0]
+            if kd == z3.Z3_OP_MUL:
+                r = 1.0
+                for v in ch:
+                    r *= v
+                return r
+            if kd == z3.Z3_OP_DIV:
+                return ch[0] / ch[1]
+            if kd == z3.Z3_OP_POWER:
+                return ch[0] ** ch[1]
+            if kd == z3.Z3_OP_TO_REAL:
+                return ch[0]
+            if kd == z3.Z3_OP_UNINTERPRETED:
+                nm = t.decl().name()
+                if t.num_args() == 0:
+                    if nm == "pi":
+                        return math.pi
+                    return float(int(rnd(nm, 1, 6))) if z3.is_int(t) else rnd(nm)
+                if z3.is_int(t):
+                    return None
+                if nm == "sqrt":
+                    return math.sqrt(ch[0])
+                if nm == "exp":
+                    return math.exp(ch[0])
+                if nm == "log":
+                    return math.log(ch[0])
+                if nm in ("erf", "erfcx"):
+                    from scipy import special as _sp
+                    return float(getattr(_sp, nm)(ch[0]))
+                return rnd(nm + "(" + ",".join(f"{v:.9g}" for v in ch) + ")", -1.5, 1.5)
+        except (ValueError, ZeroDivisionError, OverflowError):
+            return None
+        return None
+
+    return ev(e)
+
+
+def _float_different(c, a, b):
+    """two real terms take clearly different values under the true meaning of the special functions for some
+    deterministic assignment of the other symbols: they are not the same function (not merging is always sound);
+    equalities that hold only because of hypotheses about ghost functions are not seen by this filter"""
+    memo = c.uf_cache.setdefault("float_memo", {})
+    S.PIN.extend([a, b])
+    for seed in (1, 2, 3):
+        va, vb = _float_eval(a, seed, memo), _float_eval(b, seed, memo)
+        if va is None or vb is None or va != va or vb != vb:
+            continue
+        if abs(va - vb) > 1e-6 * max(1.0, abs(va), abs(vb)):
+            return True
+    return False
 
 
 def _has_div(e):
@@ -244,9 +338,31 @@ def exp_scalar(x):
 
 def _exp_ax(x, e):
     out = [e > 0]
+    laws = getattr(ctx(), "exact_surds", False)       # opt-in: exp(a+b) = exp(a) exp(b), exp(+-1/2 log u) = sqrt(u)^+-1
+    if laws and z3.is_app(x) and x.decl().kind() in (z3.Z3_OP_ADD, z3.Z3_OP_MUL, z3.Z3_OP_SUB, z3.Z3_OP_UMINUS):
+        # the sum-of-monomials form of the argument is the one the laws below are stated for
+        xs = z3.simplify(x, som=True)
+        if not xs.eq(x) and len(str(xs)) < 4000:
+            x = xs          # (x and xs are the same real number: the laws below may be stated for either form)
     if z3.is_app(x):
         k = x.decl().kind()
         ch = x.children()
+        if laws and k == z3.Z3_OP_ADD and len(ch) <= 6:
+            # exp(a + b) = exp(a) exp(b)
+            prod = None
+            for t in ch:
+                et = S.z(exp_scalar(S.wrap(t)))
+                prod = et if prod is None else prod * et
+            out.append(e == prod)
+        if laws and k == z3.Z3_OP_MUL and len(ch) == 2 and z3.is_rational_value(z3.simplify(ch[0])) and z3.is_app(ch[1]) \
+                and ch[1].decl().kind() == z3.Z3_OP_UNINTERPRETED and ch[1].decl().name() == "log":
+            u = ch[1].arg(0)
+            fr = z3.simplify(ch[0]).as_fraction()
+            if fr == -1:
+                out.append(z3.Implies(u > 0, e * u == 1))
+            elif abs(fr) * 2 == 1:
+                sq = S.z(S.sqrt_(S.wrap(u)))
+                out.append(z3.Implies(u > 0, e == sq if fr > 0 else e * sq == 1))
         if k == z3.Z3_OP_UNINTERPRETED and x.decl().name() == "log":
             out.append(z3.Implies(ch[0] > 0, e == ch[0]))
         if k == z3.Z3_OP_UMINUS:
@@ -279,6 +395,32 @@ def np_expm1(x):
 @model("numpy.sqrt")
 def np_sqrt(x):
     return _map(x, S.sqrt_)
+
+
+@model("scipy.special.erf")
+def sp_erf(x):
+    """erf: odd, strictly between -1 and 1 (facts used); its derivative 2/sqrt(pi) exp(-x^2) is in the rule table"""
+    if ctx() is None or ctx().concrete:
+        from scipy.special import erf as _erf
+        return _map(x, lambda v: float(_erf(S.pynum(v))))
+
+    def ax(z_, e):
+        return [e > -1, e < 1, S.uf("erf", -z_) == -e]
+    return _map(x, lambda v: _uf1("erf", v, ax))
+
+
+@model("scipy.special.erfcx")
+def sp_erfcx(x):
+    """scaled complementary error function: erfcx(x) = exp(x^2) (1 - erf(x)) > 0"""
+    if ctx() is None or ctx().concrete:
+        from scipy.special import erfcx as _e
+        return _map(x, lambda v: float(_e(S.pynum(v))))
+
+    def ax(z_, e):
+        ex = S.z(exp_scalar(S.wrap(z_ * z_)))
+        er = S.z(sp_erf(S.wrap(z_)))
+        return [e > 0, e == ex * (1 - er)]
+    return _map(x, lambda v: _uf1("erfcx", v, ax))
 
 
 @model("numpy.logaddexp")
@@ -565,11 +707,23 @@ def np_concatenate(parts, axis=0):
 
 
 @model("numpy.append")
-def np_append(a, b):
+def np_append(a, b, axis=None):
     a = to_tensor(a, fresh=False)
     b = to_tensor(b, fresh=False)
+    if axis is not None:
+        # documented: concatenate((a, b), axis) -- both must have the same number of dimensions
+        if unwrap(axis) != 0:
+            raise Unsupported("np.append along an axis other than 0")
+        if a.ndim != b.ndim:
+            raise RaisedInCode("ValueError")
+        from .tensor import dim_eq
+        if not all(dim_eq(p, q) for p, q in zip(a.shape[1:], b.shape[1:])):
+            raise Unsupported("np.append: trailing dimensions not provably equal")
+        return np_concatenate([a, b])
     if b.ndim == 0:
         b = b.reshape(1)
+    if a.ndim == 0:
+        a = a.reshape(1)
     if a.ndim != 1 or b.ndim != 1:
         raise Unsupported("np.append of non 1-d")
     return np_concatenate([a, b])
